@@ -24,7 +24,10 @@ import (
 // dependencies.
 
 type laneBReplay struct {
-	Tasks  []C19Task `json:"tasks"`
+	// History: the call sets the reporting process had executed before (same process: package
+	// state such as pools and caches carries over); Tasks: the call set that was running.
+	History [][]C19Task `json:"earlier_call_sets_in_the_same_process,omitempty"`
+	Tasks   []C19Task   `json:"tasks"`
 	Clause string    `json:"clause"`
 	Seed   uint64    `json:"seed"`
 	Case   int64     `json:"case"`
@@ -109,6 +112,12 @@ func laneBMain(argv []string) int {
 			fmt.Println("ERROR:", err)
 			return 2
 		}
+		for _, h := range doc.Replay.History {
+			if d := laneBCase(h, *rounds); d != "" {
+				fmt.Println("LANEB-MISMATCH (in an earlier call set)", d)
+				return 1
+			}
+		}
 		for i := 0; i < 5; i++ {
 			if d := laneBCase(doc.Replay.Tasks, *rounds); d != "" {
 				fmt.Println("LANEB-MISMATCH", d)
@@ -148,10 +157,11 @@ func runLaneB(f *commonFlags, scratch string) (map[string]any, []*Violation, int
 		cases, _ = strconv.ParseInt(v, 10, 64)
 	}
 	type res struct {
-		code  int
-		out   string
-		n     int64
-		procs int
+		code     int
+		out      string
+		n        int64
+		procs    int
+		from, to int64
 	}
 	rs := make([]res, f.workers)
 	var wg sync.WaitGroup
@@ -188,7 +198,7 @@ func runLaneB(f *commonFlags, scratch string) (map[string]any, []*Violation, int
 				rs[i].n += n.Cases
 				rs[i].procs++
 				if code != 0 {
-					rs[i].code, rs[i].out = code, se.String()
+					rs[i].code, rs[i].out, rs[i].from, rs[i].to = code, se.String(), from, to
 					return
 				}
 			}
@@ -198,6 +208,7 @@ func runLaneB(f *commonFlags, scratch string) (map[string]any, []*Violation, int
 	info := map[string]any{"note": "auxiliary lane: real goroutines, uninstrumented build, Go race detector; runtime monitoring, not simulation; not the deciding step",
 		"goroutines_per_call_set": "2..6", "rounds_per_call_set": 3, "wall_s": time.Since(t0).Seconds()}
 	var total int64
+	unrepro := 0
 	procs := 0
 	for _, r := range rs {
 		procs += r.procs
@@ -226,11 +237,12 @@ func runLaneB(f *commonFlags, scratch string) (map[string]any, []*Violation, int
 		if r.code == 1 {
 			clause = "laneB-result-differs"
 		}
-		// must reproduce in a fresh process within 5 attempts
+		// must reproduce in a fresh process within 5 attempts; the process replays the same
+		// slice of call sets, because package state (pools, caches) carries over between them
 		ok := false
 		var rep string
 		for a := 0; a < 5 && !ok; a++ {
-			cmd := exec.Command(f.laneB, "laneb", "-seed", fmt.Sprint(f.seed), "-from", fmt.Sprint(idx), "-to", fmt.Sprint(idx+1), "-rounds", "6")
+			cmd := exec.Command(f.laneB, "laneb", "-seed", fmt.Sprint(f.seed), "-from", fmt.Sprint(r.from), "-to", fmt.Sprint(idx+1), "-rounds", "6")
 			cmd.Env = env
 			out, err := cmd.CombinedOutput()
 			if ee, isExit := err.(*exec.ExitError); isExit && (ee.ExitCode() == 66 || ee.ExitCode() == 1) {
@@ -239,16 +251,28 @@ func runLaneB(f *commonFlags, scratch string) (map[string]any, []*Violation, int
 			}
 		}
 		if !ok {
-			fmt.Printf("ERROR: lane-B report for case %d did not reproduce in a fresh process\n%s\n", idx, tail(r.out, 40))
-			return info, nil, 2
+			// lane B is auxiliary: a report that does not reproduce is dropped loudly, and the run
+			// ends without a verdict unless lane A confirmed something
+			fmt.Printf("note: lane-B report for call set %d did not reproduce in a fresh process (5 attempts); dropped\n%s\n", idx, tail(r.out, 12))
+			unrepro++
+			continue
+		}
+		var hist [][]C19Task
+		for h := r.from; h < idx; h++ {
+			hg := &Gen{R: simrt.NewRand(simrt.Mix(f.seed, uint64(h), 19))}
+			hist = append(hist, genC19Tasks(hg, f.seed, h))
 		}
 		g := &Gen{R: simrt.NewRand(simrt.Mix(f.seed, uint64(idx), 19))}
 		tasks := genC19Tasks(g, f.seed, idx)
 		viol = append(viol, &Violation{Property: "C19", Clause: clause, Op: "concurrent", Seed: f.seed, Case: idx, Count: 1,
-			Detail: "lane B (real goroutines, -race): " + firstLines(rep, 14), Replay: mustJSON(&laneBReplay{Tasks: tasks, Clause: clause, Seed: f.seed, Case: idx})})
+			Detail: "lane B (real goroutines, -race): " + firstLines(rep, 14), Replay: mustJSON(&laneBReplay{History: hist, Tasks: tasks, Clause: clause, Seed: f.seed, Case: idx})})
 	}
 	info["call_sets"] = total
 	info["reports"] = reports
+	info["reports_not_reproduced"] = unrepro
+	if unrepro > 0 && len(viol) == 0 {
+		return info, nil, 3 // caller: no verdict unless lane A confirmed something
+	}
 	sort.Slice(viol, func(i, j int) bool { return viol[i].Case < viol[j].Case })
 	return info, viol, 0
 }
